@@ -211,6 +211,9 @@ func runC02(r *core.Run) {
 		}
 	}
 	var samples []string
+	// options values a caller keeps across quotes (the TDX entry points take a pointer)
+	var tdxOpts *gcetcbendorsement.TdxValidateOptions
+	var tdxPolOpts *gcetcbendorsement.TdxPolicyOptions
 	// ---- expected firmware digest without any SNP options (a TDX relying party, or someone
 	// checking a firmware binary against its endorsement): the endorsed digest must equal it ----
 	for k, nd := 0, 1+r.Intn(2, "digest-only-calls"); k < nd; k++ {
@@ -528,10 +531,29 @@ func runC02(r *core.Run) {
 			switch entry {
 			case 0:
 				name = "TdxValidate"
-				err = gcetcbendorsement.TdxValidate(ctx, TdxQuoteRaw(quote), &gcetcbendorsement.TdxValidateOptions{Endorsement: le, RootsOfTrust: roots, Now: now, ExpectedRAMGiB: ram, BasePolicy: basePol, Overwrite: overwrite})
+				vo := &gcetcbendorsement.TdxValidateOptions{Endorsement: le, RootsOfTrust: roots, Now: now, ExpectedRAMGiB: ram, BasePolicy: basePol, Overwrite: overwrite}
+				if r.Chance(40, "reuse-tdx-options?") {
+					// a caller that keeps one options value and sets its exported fields per quote
+					if tdxOpts == nil {
+						tdxOpts = &gcetcbendorsement.TdxValidateOptions{}
+					} else {
+						r.Probe("tdx-options-reused")
+					}
+					tdxOpts.Endorsement, tdxOpts.RootsOfTrust, tdxOpts.Now, tdxOpts.ExpectedRAMGiB, tdxOpts.BasePolicy, tdxOpts.Overwrite = le, roots, now, ram, basePol, overwrite
+					vo, name = tdxOpts, "TdxValidate/reused-options"
+				}
+				err = gcetcbendorsement.TdxValidate(ctx, TdxQuoteRaw(quote), vo)
 			case 1:
 				name = "TdxPolicy+validate"
-				pol, perr := gcetcbendorsement.TdxPolicy(ctx, le, &gcetcbendorsement.TdxPolicyOptions{RAMGiB: ram, Base: basePol, Overwrite: overwrite})
+				po := &gcetcbendorsement.TdxPolicyOptions{RAMGiB: ram, Base: basePol, Overwrite: overwrite}
+				if r.Chance(40, "reuse-tdx-policy-options?") {
+					if tdxPolOpts == nil {
+						tdxPolOpts = &gcetcbendorsement.TdxPolicyOptions{}
+					}
+					tdxPolOpts.RAMGiB, tdxPolOpts.Base, tdxPolOpts.Overwrite = ram, basePol, overwrite
+					po, name = tdxPolOpts, "TdxPolicy+validate/reused-options"
+				}
+				pol, perr := gcetcbendorsement.TdxPolicy(ctx, le, po)
 				if perr != nil {
 					err = perr
 					break
